@@ -492,6 +492,8 @@ type Meta struct {
 	fs     *FS
 	closed bool
 	mu     sync.Mutex
+	// CloseErr, if set, is returned by Close (fault injection).
+	CloseErr error
 }
 
 func (m *Meta) Load(dir string) (types.PersistentState, error) {
@@ -565,7 +567,13 @@ func (m *Meta) SetStable(key, value []byte) error {
 	return nil
 }
 
-func (m *Meta) Close() error { return nil }
+// Close marks the view closed. With CloseErr set it reports that error (the store is closed all the same).
+func (m *Meta) Close() error {
+	m.mu.Lock()
+	defer m.mu.Unlock()
+	m.closed = true
+	return m.CloseErr
+}
 
 // MetaState returns the committed state (decoded), ok=false if none.
 func (fs *FS) MetaState() (types.PersistentState, bool) {
